@@ -6,7 +6,10 @@ EXTENDS Naturals, Sequences, TLC, Json
 CONSTANT MaxPipe
 Firsts == {"connect_valid", "connect_unknown_object", "connect_bad_payload", "connect_unknown_serializer",
            "type_invoke", "type_result", "type_ping", "type_connectok", "type_connectfail", "type_zero", "type_unknown",
-           "garbage", "bad_version", "bad_magic", "oversized", "truncated", "empty"}
+           "garbage", "bad_version", "bad_magic", "oversized", "truncated", "empty",
+           \* something that is not this protocol at all and shorter than a header (an HTTP request line, another version's tag);
+           \* the peer stays connected and waits for an answer
+           "short_foreign"}
 \* return:lock - the validator accepts but hands back something no serializer can encode: the handshake cannot be completed
 Validators == {"accept", "return:None", "return:False", "return:0", "return:list", "return:lock", "raise:ValueError", "raise:KeyError",
                "raise:SecurityError", "raise:ConnectionClosedError", "raise:PyroError", "raise:TimeoutError",
